@@ -694,6 +694,11 @@ def run(tier, seed, replay):
             nflow += 1
             for k, w in judge_flow(refs[i], o[3:].split(" | ")[0]):
                 e2e_bad.append((i, k, w))
+        # the netlist the aig flow finally returns must itself be well-formed (range, arity, one driver per read net)
+        from .c20 import py_wf
+        pw, _ = py_wf(G.parse_gate(o[3:].split(" | ")[0]))
+        if pw:
+            e2e_bad.append((i, "flow-wf", "the netlist synthesized with the aig pass is not well-formed: %s" % pw[0]))
         if info["ands"] >= 3:
             distinct.add("e2e" + d["src"])
         parts = o[3:].split(" | ")
